@@ -58,10 +58,19 @@ def compile_roundtrip(repo_copy, workdir, cases, lits, cc="gcc", copts=("-O0",),
     src = os.path.join(workdir, f"rt{tag}.c")
     with open(src, "w") as f:
         f.write('#include <stdio.h>\n#include <string.h>\n#include "w2c2_base.h"\nvoid trap(Trap t){(void)t;}\n')
+        # one function per 500 constants: a single function with tens of thousands of volatile blocks makes clang -O2 take
+        # more than half an hour (super-linear); the statements and their order are unchanged
+        CH = 500
+        nparts = (len(cases) + CH - 1) // CH
+        for k in range(nparts):
+            f.write(f"static void part{k}(void){{\n")
+            for (t, b), lit in list(zip(cases, lits))[k * CH:(k + 1) * CH]:
+                w = 32 if t in ("i32", "f32") else 64
+                f.write(f"{{ volatile {CT[t]} v; v = {lit}; {'U32' if w == 32 else 'U64'} r; {CT[t]} c = v; memcpy(&r, &c, sizeof r); printf(\"%llx\\n\", (unsigned long long)r); }}\n")
+            f.write("}\n")
         f.write("int main(void){\n")
-        for i, ((t, b), lit) in enumerate(zip(cases, lits)):
-            w = 32 if t in ("i32", "f32") else 64
-            f.write(f"{{ volatile {CT[t]} v; v = {lit}; {'U32' if w == 32 else 'U64'} r; {CT[t]} c = v; memcpy(&r, &c, sizeof r); printf(\"%llx\\n\", (unsigned long long)r); }}\n")
+        for k in range(nparts):
+            f.write(f"part{k}();\n")
         f.write("return 0;}\n")
     exe = os.path.join(workdir, f"rt{tag}")
     p = subprocess.run([cc] + list(copts) + ["-w", "-I", os.path.join(repo_copy, "w2c2"), src, "-o", exe, "-lm"],
